@@ -99,6 +99,18 @@ pub fn pack_cases(tier: Tier) -> Vec<PackCase> {
                         }
                     }
                 }
+                // fill sweep across slices: a small message, a sliced one (its slice packets leave first and carry the
+                // packet sequence across a width boundary while the small-message packet is still open), then a small
+                // message of every length: a size budget fixed when the small-message packet was opened is stale by then
+                if id0 == 0 && (seq0 == 64 || seq0 == 16_384 || seq0 == 1 << 30) {
+                    for &(a, sl) in &[(100usize, 6000usize), (1usize, 2401usize)] {
+                        for b in 1..=1300usize {
+                            for back in 0..=7u64 {
+                                out.push(PackCase { kind, lens: vec![a, sl, b], seq0: seq0 - back, id0 });
+                            }
+                        }
+                    }
+                }
                 for lens in [vec![0usize; 40], vec![1usize; 70], vec![62, 63, 64, 65, 1100], vec![76_800], vec![84_000, 1], vec![1201, 1200, 1199, 2401]] {
                     out.push(PackCase { kind, lens, seq0, id0 });
                 }
